@@ -90,6 +90,14 @@ def run_one(args):
         ref['broker'] = broker
         ch = conn.channel(rpc_timeout=3)
         ch.queue.declare('cq')
+        if sc.get('prelude') == 'failed-get':
+            # history before any consumer exists: a returned mandatory message, then a basic.get that raises it
+            ch.basic.publish(b'unroutable', 'no-such-queue', mandatory=True)
+            ctx.quiesce()
+            try:
+                ch.basic.get('cq', no_ack=True)
+            except amqpstorm.AMQPMessageError:
+                pass
         ch._consumer_callbacks = LoggingDict(tr.ev)
         ref['chan_lock'] = ch.lock.name
         ref['cid'] = ch.channel_id
@@ -206,6 +214,7 @@ def run_one(args):
             if not cons.done:
                 ch.close()
         out['received'] = received
+        out['delivered_n'] = len(broker.channels.get(ch.channel_id, {}).get('delivered', []))
         out['final_broker_tags'] = sorted(bc['consumers'])
 
     BaseChannel.add_consumer_tag, BaseChannel.remove_consumer_tag = add_tag, remove_tag
@@ -218,7 +227,7 @@ def run_one(args):
     out['abort'] = ctx.sched.abort_reason
     out['preemptions'] = ctx.sched.preemptions
     out['thread_excs'] = [(t.name, repr(t.exc)) for t in ctx.sched.threads if t.exc is not None and t.kind == 'app']
-    out['lines'], out['expect'] = ([], []) if sc.get('reuse') else build_trace(ctx.sched, ref)
+    out['lines'], out['expect'] = ([], []) if (sc.get('reuse') or sc.get('prelude')) else build_trace(ctx.sched, ref)
     return out
 
 
@@ -485,6 +494,12 @@ def check(rep):
               'feeds': rng.randint(0, 2), 'consumer_thread': False, 'reuse': True, 'fair_time': rng.random() < 0.5,
               'p_preempt': rng.choice([0.15, 0.3]), 'p_stall': 0.5}
         jobs.append((sc, rng.randrange(1 << 30)))
+    # the channel has a history before its first consumer (a basic.get that failed with a parked returned-message error):
+    # deliveries for the confirmed tag still reach its callback
+    for _ in range(30 if not thorough else 500):
+        sc = {'adders': [[('consume', 'h1')]], 'stopper': None, 'broker_cancels': 0, 'feeds': rng.randint(2, 4), 'consumer_thread': True,
+              'prelude': 'failed-get', 'fair_time': rng.random() < 0.5}
+        jobs.append((sc, rng.randrange(1 << 30)))
     # a consumer is added on a queue with a backlog while another thread is consuming: the first delivery
     # follows ConsumeOk at once (is the callback bound before anybody can dispatch it?), under heavy pre-emption
     for _ in range(150 if not thorough else 3000):
@@ -522,6 +537,10 @@ def check(rep):
                           'delivers to %r' % (r['after_stop'][0], r['after_stop'][1]), replay)
         if r.get('consumer_alive'):
             rep.violation('C14/start-consuming-does-not-return', 'no consumer left but start_consuming() keeps running', replay)
+        if sc.get('prelude') and not r.get('consumer_alive') and 'consumer_error' not in r and 'consumer_keyerror' not in r \
+                and len(r.get('received', [])) != r.get('delivered_n'):
+            rep.violation('C14/deliveries-not-dispatched-to-their-callback', 'the broker made %r deliveries for the confirmed tag, its callback '
+                          'was given %d (history before the first consumer: %s)' % (r.get('delivered_n'), len(r.get('received', [])), sc['prelude']), replay)
         for (bound, got) in r.get('received', []):
             if bound is not None and bound != got:
                 rep.violation('C14/dispatched-to-wrong-callback', 'message for %r reached the callback of %r' % (got, bound), replay)
